@@ -51,6 +51,11 @@ CHECKS = {
    "The protocol model explores every interleaving of the compiler's three goroutines and singles out the schedule that deadlocks a given ordering of the assigner's answer/notify pair; the real compiler is then driven into exactly those schedules (and the others reachable by delaying each synchronisation point), must terminate in all of them and must emit identical artefacts. Independently, programs drawn from the reference semantics are compiled and executed and their output streams must equal the specification's.",
    "Semantic half: straight-line programs over three register variables, + and *, ++/--, constants incl. wrap-around, two outputs, if/else on ==, rsize 8 and 16 (goroutines/channels/functions/loops are not generated); == is a recorded known finding (je stub). Concurrency half: delays of 4-40 ms at 5 hook points, singly and in pairs, on programs whose last request is a variable request. Trusted: TLC, the pretty-printer from the spec's AST to Go source, r2o-retire detection in the simulator.",
    "DESIGN.md §4 C12", "bmverif"),
+ "C14": ("translation_validation",
+   "TLA+ reference semantics QCircuit (exact arithmetic in Z[e^{i pi/4}]/sqrt2^k, gates placed on qubits directly from the definition) evaluated by TLC over an enumerated family of circuits with UnitaryColumns checked on the spec; every circuit compiled by the real QasmToBmMatrices, the emitted matrices multiplied and compared entrywise with the reference, each checked unitary, and RunSoftwareSimulation run on every basis state",
+   "Each compiled circuit is validated against an independent exact reference: the specification never builds swap networks or tensor products, so a wrong permutation, argument order or swap-back in the compiler shows as an entrywise difference for the placement that triggers it; all gates on all placements of 1..3 (4) qubit registers and all two-gate circuits over a gate subset are enumerated.",
+   "Tolerance 2e-5 * 2^n absorbs float32 rounding only; parametric gates at multiples of pi/2 (rx, ry, rz) and pi/4 (phase shift r) since other angles are not representable in the ring; 'p' is the S gate in this code base. Trusted: TLC, conversion of ring elements to complex128.",
+   "DESIGN.md §4 C14", "bmverif"),
 }
 NOT_APPLICABLE = {
  "C18": "static well-formedness of generated Verilog text (parse/lint judgement): no state, transitions or behaviour for a TLA+ specification to decide; see DESIGN.md §5",
